@@ -18,7 +18,7 @@ pub struct Found {
 fn still(plan: &Plan, script: &[Action], target: &Violation, refs: &mut References, n: &mut u32) -> Option<(Vec<Action>, Violation, u64)> {
     *n += 1;
     let r = oracle::run_forked(plan, Some(script), refs);
-    let vs = oracle::violations_of(&r);
+    let vs = oracle::violations_of(plan, refs, &r);
     let v = vs.into_iter().find(|v| v.same_as(target))?;
     match r {
         Ok(s) => Some((s.trace, v, s.log_hash)),
